@@ -65,7 +65,7 @@ func (sim) Explain(prop string, st map[string]int64) string {
 	case "C06":
 		probes = []string{"probe.two-senders-in-flight", "probe.spent-mature-coinbase", "probe.spent-unconfirmed-coin", "probe.explicit-ineligible:locked", "probe.explicit-ineligible:leased",
 			"probe.explicit-ineligible:other-account", "probe.explicit-ineligible:other-scope", "probe.explicit-ineligible:too-few-confirmations", "probe.explicit-ineligible:immature-coinbase",
-			"probe.explicit-ineligible:already-spent", "probe.explicit-ineligible:unknown-outpoint", "probe.verified:pubkeyhash", "probe.verified:witness_v0_keyhash", "probe.verified:scripthash", "probe.verified:witness_v1_taproot"}
+			"probe.explicit-ineligible:already-spent", "probe.explicit-ineligible:unknown-outpoint", "probe.account-import-preview", "probe.verified:pubkeyhash", "probe.verified:witness_v0_keyhash", "probe.verified:scripthash", "probe.verified:witness_v1_taproot"}
 	case "C20":
 		probes = []string{"probe.rejection-with-other-unmined", "probe.chained-unconfirmed-send", "probe.already-in-mempool", "probe.already-confirmed",
 			"probe.rejection-of-recorded-tx", "probe.resend-with-unmined", "probe.resend-chain", "fault.backend-answer.transport", "fault.backend-answer.reject-fee",
@@ -739,6 +739,10 @@ func (rs *runState) exec(task, step int, op core.Op) {
 	case "lockop":
 		if x.running {
 			rs.lockop(step, op)
+		}
+	case "importdry":
+		if x.running {
+			rs.importdry(step, op)
 		}
 	case "newacct":
 		if x.running && !x.haveAcct1 {
